@@ -88,7 +88,8 @@ class C05(Check):
         shape = {'p_switch': rng.choice([0.1, 0.3, 0.6]), 'line_gaps': rng.choice([0, 0, 8, 12, 15]),
                  'seg_bias': rng.choice([1.0, 0.6]), 'lat_bias': rng.choice([1.0, 0.6]),
                  'specs': specs, 'ntasks': ntasks, 'slow_consumer': rng.random() < 0.15,
-                 'late_activate': rng.choice([None, None, 0, 0.001, 0.05, 0.3])}
+                 'late_activate': rng.choice([None, None, 0, 0.001, 0.05, 0.3]),
+                 'extra_clients': rng.choice([0, 0, 1, 2])}
         return {'shape': shape, 'ops': ops}
 
     def shrink_candidates(self, case):
@@ -122,6 +123,13 @@ class C05(Check):
         r = cl.request('activate', timeout=60)
         ctx['activated'] = r is not None and r[2].raw == b'active'
         ctx['nsnapshot'] = len(cl.lines)
+        extra = ctx['extra_clients'] = []
+        for _ in range(shape.get('extra_clients', 0)):
+            # further connections activated from the start: every one of them must see the whole history
+            c3 = nodeworld.RawClient(world)
+            r3 = c3.request('activate', timeout=60)
+            if r3 is not None and r3[2].raw == b'active':
+                extra.append(c3)
         oplog = ctx['oplog'] = []
         errors = ctx['task_errors'] = []
         di_of = {(s['name'], p['name']): p['di'] for s in shape['specs'] for p in s['params']}
@@ -240,6 +248,8 @@ class C05(Check):
         cl.drain(quiet=3.0, maxtime=60)
         if late.get('client') is not None:
             late['client'].drain(quiet=1.0, maxtime=30)
+        for c3 in extra:
+            c3.drain(quiet=1.0, maxtime=30)
         ctx['exports'] = {(m, p.name): p.export for m in node.secnode.modules
                           for p in node.module(m).parameters.values() if p.name in [q for (mm, q) in di_of if mm == m]}
 
@@ -392,10 +402,17 @@ class C05(Check):
             states[key] = [(seq, st)]
         for h in hist:
             if h['export']:
-                states.setdefault((h['mod'], h['export']), []).append((h['seq'], h['state']))
+                lst = states.setdefault((h['mod'], h['export']), [])
+                if lst and len(lst) == 1 and h['seq'] <= lst[0][0]:
+                    continue        # a change made before the initial state was taken is contained in it
+                if lst and lst[-1][1] == h['state']:
+                    continue        # the same announcement seen twice (value and timestamp identical)
+                lst.append((h['seq'], h['state']))
         clients = [(ctx['client'], '')]
         if ctx.get('late', {}).get('activated'):
             clients.append((ctx['late']['client'], '|late'))
+        for c3 in ctx.get('extra_clients', ()):
+            clients.append((c3, '|second'))
         for cl, tag in clients:
             res.extend(self._replay(ctx, states, cl, tag, cnt))
         return res
@@ -416,7 +433,8 @@ class C05(Check):
             for i, (_s, s) in enumerate(states.get(key, ())):
                 if s[0] == st[0] and s[1] == st[1] and s[-1] == st[-1]:
                     idx = i
-                    break
+                    if key not in last or i > last[key][0]:
+                        break       # (the same state may be held several times: the first one not yet delivered)
             if idx is None:
                 res.append(Violation('C05.phantom-state', 'update' + tag,
                                      f'{ln!r} shows a state the cache never held; history of {key}: '
@@ -426,6 +444,12 @@ class C05(Check):
                 res.append(Violation('C05.stream-order', 'reordered' + tag,
                                      f'line {ln.idx} {ln!r} shows cache state #{idx} after line {last[key][1]} showed '
                                      f'the newer state #{last[key][0]}'))
+            # an activated connection gets one message per announced change: no state of the cache is skipped
+            if key in last and idx > last[key][0] + 1 and not cl.eof:
+                res.append(Violation('C05.change-not-announced', 'skipped' + tag,
+                                     f'line {ln.idx} {ln!r} shows cache state #{idx} of {key}, the previous message for it '
+                                     f'showed #{last[key][0]}: {[s for _q, s in states[key][last[key][0] + 1:idx]][:3]} never '
+                                     f'reached this connection'))
             last[key] = (idx, ln.idx)
         final = ctx['final']
         if cl.eof:
